@@ -120,6 +120,7 @@ pub fn run(arg: &str) -> (bool, String) {
         "c05" => c05(),
         "c07" => c07(),
         "c11" => c11(),
+        "c02-alg" => c02_alg(),
         "c09" => c09(),
         "c09-enabled" => c09_enabled(false),
         "c09-enabled-no-prf" => c09_enabled(true),
@@ -535,4 +536,36 @@ fn c09_enabled(without_prf: bool) -> (bool, String) {
         }
     }
     (false, format!("\"enabled\" reported exactly when secrets were stored in {n} registrations"))
+}
+
+/// C02: "The algorithm is the first entry of the relying party's preference list that the authenticator supports ..., and a list
+/// with no supported entry fails without creating anything", over preference lists of up to three entries whose type is
+/// public-key or unknown and whose algorithm is ES256 or one the authenticator does not have.
+fn c02_alg() -> (bool, String) {
+    use coset::iana::Algorithm;
+    let algs = [Algorithm::ES256, Algorithm::RS256, Algorithm::EdDSA];
+    let tys = [PublicKeyCredentialType::PublicKey, PublicKeyCredentialType::Unknown];
+    let mut entries = vec![];
+    for t in tys { for a in algs { entries.push((t, a)); } }
+    let mut lists: Vec<Vec<(PublicKeyCredentialType, Algorithm)>> = vec![vec![]];
+    for a in &entries { lists.push(vec![*a]); for b in &entries { lists.push(vec![*a, *b]); for c in &entries { lists.push(vec![*a, *b, *c]); } } }
+    let n = lists.len();
+    for l in lists {
+        let store = RefStore::new(2);
+        let mut a = Authenticator::new(Aaguid::new_empty(), store.clone(), yes());
+        let mut req = mc_request("a.example", true, true, true, None);
+        req.pub_key_cred_params = l.iter().map(|(ty, alg)| webauthn::PublicKeyCredentialParameters { ty: *ty, alg: *alg }).collect();
+        // the authenticator supports public-key credentials with ES256 (Authenticator::new)
+        let want = l.iter().find(|(ty, alg)| *ty == PublicKeyCredentialType::PublicKey && *alg == Algorithm::ES256).map(|e| e.1);
+        let ctx = format!("preference list {:?}", l.iter().map(|(t, a)| format!("{}:{:?}", if *t == PublicKeyCredentialType::PublicKey { "public-key" } else { "unknown-type" }, a)).collect::<Vec<_>>());
+        let r = block_on(a.make_credential(req));
+        let stored = store.items.lock().unwrap().len();
+        match (want, r) {
+            (None, Ok(_)) => return (true, format!("{ctx}: no entry is supported, but the registration succeeded ({stored} credential(s) stored)")),
+            (None, Err(_)) => if stored != 0 { return (true, format!("{ctx}: failed but stored a credential")); },
+            (Some(_), Err(e)) => return (true, format!("{ctx}: a supported entry is present, registration failed with {e:?}")),
+            (Some(_), Ok(_)) => if stored != 1 { return (true, format!("{ctx}: {stored} credentials stored")); },
+        }
+    }
+    (false, format!("algorithm choice agrees with the statement over {n} preference lists"))
 }
